@@ -5,7 +5,8 @@
     * `proj_deliver_hidden_conn_closeW_p`  - the worker is `p`'s current worker, in normal mode, syn consumed, `p` not
       in retry mode: this is the `Choice.closeW w` step of `Model.Pipeline` (`canClose` holds).
     * `proj_deliver_hidden_conn_closing_p` - the worker is already closing: NO step.
-  Both keep `WRel (BRp p)`.  They are NOT yet wired into `delOK` / `projChoice` (Props/C02multiZ.lean, C02multiK.lean).
+  Both keep `WRel (BRp p)`.  They are wired into the widened side condition and computed projection of
+  Props/C02multiK2.lean (`delOK2`, `projChoice2`); `delOK` / `projChoice` themselves are unchanged.
   (If the worker is in normal mode but is not `p`'s current worker, or `p` is in retry mode there, `BRp` - which
   equates the closing modes - cannot be kept by either of the two: not covered.)
 -/
